@@ -476,6 +476,9 @@ func C07Cells() []string {
 					// persistent: every Import from the second one on fails (the receiver stays unable
 					// to take more keys); only a transfer made of several Imports ever gets that far
 					cells = append(cells, sc+"/"+m+"/"+mode+"/2nd+")
+					// ... and every Import from the first one on: the change can never complete, the retries
+					// are used up and the node gives up
+					cells = append(cells, sc+"/"+m+"/"+mode+"/1st+")
 				}
 			}
 		}
@@ -499,7 +502,7 @@ func genC07(p *Plan, r *simrt.Rand, seed uint64, hashes []uint64) {
 	parts := strings.Split(cell, "/")
 	scenario, rpc, mode, occ := parts[0], parts[1], parts[2], parts[3]
 	n := 3 + r.Intn(2)
-	bulk := strings.HasPrefix(rpc, "Import") && (r.Chance(0.6) || occ == "2nd+")
+	bulk := strings.HasPrefix(rpc, "Import") && ((r.Chance(0.6) && occ != "1st+") || occ == "2nd+")
 	if bulk {
 		// several hundred keys to hand over: a transfer that is split into parts has a second, third ...
 		// Import to lose (with one Import per transfer the later occurrences simply do not exist)
@@ -530,7 +533,7 @@ func genC07(p *Plan, r *simrt.Rand, seed uint64, hashes []uint64) {
 	} else if occ == "2nd" || occ == "2nd+" {
 		nth = 2
 	}
-	f := &simnet.Targeted{Method: method, Nth: nth, Repeat: occ == "2nd+"}
+	f := &simnet.Targeted{Method: method, Nth: nth, Repeat: occ == "2nd+" || occ == "1st+"}
 	switch mode {
 	case "reset":
 		f.Mode = simnet.FaultReset
